@@ -295,10 +295,10 @@ func c01Gen(r *Rand, tier string) []interface{} {
 	var out []interface{}
 	hosts := []string{"a.com", "b.a.com", "c.b.a.com", "*.a.com", "*.*.com", "*.b.a.com", "*", "", "0.0.0.0", "[::]", "127.0.0.1",
 		"localhost", "A.com", "x.org", "*.org", "*.*.*.com", "[::1]", "[2001:DB8::1]", "b.A.com", "a.com.", "*.*", "*.*.a.com", "*.*.*.*",
-		"B.a.CoM", "[fe80::1]", "*.localhost", "xn--caf-dma.com"}
+		"B.a.CoM", "[fe80::1]", "*.localhost", "xn--caf-dma.com", "caf\xc3\xa9.com", "*.caf\xc3\xa9.com", "CAF\xc3\xa9.com"}
 	ports := []string{"", "", "", ":8080", ":2015", ":80"}
 	foreign := []string{"a.com", "A.COM", "b.a.com", "B.a.Com", "c.b.a.com", "d.c.b.a.com", "z.com", "x.org", "y.x.org", "", "localhost",
-		"127.0.0.1", "0.0.0.0", "[::1]", "[::]", "zzz", "a.com.", "q.z.com", "*.a.com", "com", "b.a.org", "[2001:db8::1]", "[2001:DB8::1]", "::1", "[fe80::1]", "a.b.c.d"}
+		"127.0.0.1", "0.0.0.0", "[::1]", "[::]", "zzz", "a.com.", "q.z.com", "*.a.com", "com", "b.a.org", "[2001:db8::1]", "[2001:DB8::1]", "::1", "[fe80::1]", "a.b.c.d", "caf\xc3\xa9.com", "Caf\xc3\xa9.COM:80", "w.caf\xc3\xa9.com"}
 	scale := 1
 	if tier == "thorough" {
 		scale = 10
